@@ -112,7 +112,10 @@ func newClientDialer(addr string, mode ClientMode, dialer *net.Dialer, logger lo
 	c.conns.Store(newClientConns())
 
 	if mode == ClientMode_AutoConnect {
+		// Lock to register the routine before it can complete and clear itself.
+		c.mu.Lock()
 		c.connect()
+		c.mu.Unlock()
 	}
 	return c
 }
